@@ -527,6 +527,162 @@ fn judge_after_restart(
     Ok(())
 }
 
+const STRACE_CALLS: &[&str] = &[
+    "rename", "renameat", "renameat2", "unlink", "unlinkat", "symlink", "symlinkat", "openat", "write",
+    "ftruncate",
+];
+
+/// `(syscall, n)`: the n-th invocation of that system call (counted per thread, as strace does)
+/// names the log directory
+fn strace_points(trace: &str, logs: &str) -> Vec<(String, u32)> {
+    let mut counters: std::collections::HashMap<(String, String), u32> = std::collections::HashMap::new();
+    let mut out = Vec::new();
+    for line in trace.lines() {
+        let mut it = line.splitn(2, ' ');
+        let (Some(pid), Some(rest)) = (it.next(), it.next()) else { continue };
+        let rest = rest.trim_start();
+        // (a resumed call was counted when it was entered)
+        if rest.starts_with("<...") || rest.starts_with("---") || rest.starts_with("+++") {
+            continue;
+        }
+        let Some(paren) = rest.find('(') else { continue };
+        let name = &rest[..paren];
+        if !STRACE_CALLS.contains(&name) {
+            continue;
+        }
+        let c = counters.entry((pid.to_string(), name.to_string())).or_insert(0);
+        *c += 1;
+        if rest.contains(logs) {
+            out.push((name.to_string(), *c));
+        }
+    }
+    out.sort();
+    out.dedup();
+    out
+}
+
+fn strace_kills(
+    ctx: &CaseCtx,
+    sc: &Scenario,
+    dir: &Path,
+    facts: &str,
+    rng: &mut Rng,
+    res: &mut CaseResult,
+) {
+    let spawn_under = |role: &str, wrapper: &[String], extra: Vec<(String, String)>| {
+        child::spawn_wrapped(
+            &child::Spawn {
+                ctx,
+                role,
+                extra,
+                env: vec![],
+                timeout: Duration::from_secs(40),
+                tag: role,
+                cwd: None,
+                kill_after: None,
+            },
+            wrapper,
+        )
+    };
+    let w = |v: &[&str]| v.iter().map(|s| (*s).to_string()).collect::<Vec<String>>();
+    // the counting run
+    reset_dir(dir);
+    let trace_file = dir.join("strace_count.txt");
+    let _ = std::fs::remove_file(&trace_file);
+    let tf = trace_file.to_string_lossy().to_string();
+    let calls = STRACE_CALLS.join(",");
+    let counted = spawn_under(
+        "kill",
+        &w(&["strace", "-f", "-y", "-qq", "--seccomp-bpf", "-o", &tf, "-e", &format!("trace={calls}")]),
+        vec![],
+    );
+    let usable = matches!(&counted, Ok(o) if o.clean_exit()) && trace_file.exists();
+    if !usable {
+        res.count("strace_unavailable", 1);
+        return;
+    }
+    let logs = sc.cfg.names.dir.to_string_lossy().to_string();
+    let text = std::fs::read_to_string(&trace_file).unwrap_or_default();
+    let mut points = strace_points(&text, &logs);
+    let _ = std::fs::remove_file(&trace_file);
+    res.count("strace_kill_points_in_histories", points.len() as u64);
+    if points.is_empty() {
+        return;
+    }
+    let all = ctx.thorough && points.len() <= 80;
+    if !all {
+        for i in (1..points.len()).rev() {
+            let j = rng.usize(i + 1);
+            points.swap(i, j);
+        }
+        points.truncate(if ctx.thorough { 40 } else { 8 });
+    } else {
+        res.count("histories_with_all_strace_kill_points_enumerated", 1);
+    }
+    for (call, n) in points {
+        reset_dir(dir);
+        let kl = match spawn_under(
+            "kill",
+            &w(&[
+                "strace",
+                "-f",
+                "-qq",
+                "-o",
+                "/dev/null",
+                "-e",
+                &format!("trace={call}"),
+                "-e",
+                &format!("inject={call}:signal=KILL:when={n}"),
+            ]),
+            vec![],
+        ) {
+            Ok(o) => o,
+            Err(_) => {
+                res.count("strace_unavailable", 1);
+                return;
+            }
+        };
+        if kl.timed_out {
+            res.count("strace_runs_over_the_watchdog", 1);
+            continue;
+        }
+        if kl.code == Some(0) {
+            // (counted in another thread than the one that gets there first, or not reached)
+            res.count("strace_kill_point_not_reached", 1);
+            continue;
+        }
+        if kl.signal != Some(9) && kl.code != Some(137) {
+            res.count("strace_runs_ended_otherwise", 1);
+            continue;
+        }
+        res.count("strace_kill_runs", 1);
+        res.add_to_set("strace_kill_points_executed", call.clone());
+        let (acked, last_call) = acks_of(dir, "kill");
+        if let Err((kind, detail)) = judge_after_crash(sc, &acked, last_call, true) {
+            res.violate(
+                &kind,
+                format!("C11/after-syscall-kill/{kind}/at-{call}/{facts}"),
+                format!("SIGKILL at the entry of {call} #{n} (delivered by strace; the call is not executed): {detail}"),
+            );
+            return;
+        }
+        let off = *rng.pick(&[0u64, 200_000_000, 1_000_000_000, 90_000_000_000]);
+        let rs = match spawn_under("restart", &[], vec![("restart_offset_ns".into(), off.to_string())]) {
+            Ok(o) => o,
+            Err(_) => return,
+        };
+        if let Err((kind, detail)) = judge_after_restart(sc, &acked, last_call, &rs, dir) {
+            res.violate(
+                &kind,
+                format!("C11/after-syscall-kill-restart/{kind}/at-{call}/{facts}"),
+                format!("SIGKILL at the entry of {call} #{n}, then restart (append={}): {detail}", sc.restart_append),
+            );
+            return;
+        }
+        res.count("restarts_judged", 1);
+    }
+}
+
 pub fn run_case(ctx: &mut CaseCtx) -> CaseResult {
     let sc = gen(&mut ctx.rng, &ctx.dir, ctx.thorough);
     let dir = ctx.dir.clone();
@@ -712,6 +868,12 @@ pub fn run_case(ctx: &mut CaseCtx) -> CaseResult {
             );
             break;
         }
+    }
+    // step 4: kill points that do not depend on the crate's hooks: the history runs under strace,
+    // which delivers SIGKILL at the entry of the n-th rename / unlink / symlink / openat / write
+    // that touches the log directory (the system call is not executed any more)
+    if res.verdict == Verdict::Held && ctx.case % 2 == 1 {
+        strace_kills(ctx, &sc, &dir, &facts, rng, &mut res);
     }
     res.count("fs_points_in_traces", total);
     res.count("crash_runs", crash_runs);
